@@ -86,6 +86,11 @@ EmitLong(op) ==
           B == IF dt = "bool" THEN T("bool", bshape, [k \in 1..Size(bshape) |-> k % 5 < 2]) ELSE T(dt, bshape, [k \in 1..Size(bshape) |-> Fin(((k * 5) % 19) + 1)])
       IN PrintT(<<"CASE", ToJson(CaseRec("types", op, A, B, <<"long", dt>>))>>)
 
+\* operands that hold the same elements under different shapes (the harness also builds them over one backing slice)
+EmitSameData(op) ==
+   \A p \in {<<<<3, 1>>, <<1, 3>>>>, <<<<3>>, <<1, 3>>>>, <<<<2, 3>>, <<3, 2>>>>, <<<<2, 1, 2>>, <<1, 4>>>>} :
+      LET mk(sh) == IF op \in LogicOps THEN T("bool", sh, [k \in 1..Size(sh) |-> k % 3 = 1]) ELSE T("f32", sh, [k \in 1..Size(sh) |-> Fin(IF op = "Div" THEN k ELSE k - 2)]) IN
+      PrintT(<<"CASE", ToJson(CaseRec("types", op, mk(p[1]), mk(p[2]), <<"same_data">>))>>)
 \* tiling law (Outcome.tla): rows along axis 0 are treated independently; the harness repeats the flagged operands beyond a
 \* million elements
 TileVariants == {<<<<3>>, <<3>>, {1, 2}>>, <<<<3>>, <<1>>, {1}>>, <<<<1>>, <<3>>, {2}>>, <<<<3, 2>>, <<2>>, {1}>>, <<<<3, 2>>, <<3, 1>>, {1, 2}>>, <<<<3>>, <<>>, {1}>>,
@@ -108,7 +113,7 @@ Emit ==
    /\ CASE st.mode = "shapes" ->
              PrintT(<<"CASE", ToJson(CaseRec("shapes", st.op, IdT(st.op, st.a, 0), IdT(st.op, st.b, 100), ShapeFeat(st.a, st.b)))>>)
         [] st.mode = "values" -> (st.dt \in OpTypes(st.op) => EmitValues(st.op, st.dt))
-        [] st.mode = "types" -> EmitTypes(st.op) /\ EmitLong(st.op) /\ EmitTile(st.op)
+        [] st.mode = "types" -> EmitTypes(st.op) /\ EmitLong(st.op) /\ EmitTile(st.op) /\ EmitSameData(st.op)
    /\ st' = [st EXCEPT !.done = TRUE]
 
 Next == Emit
